@@ -467,6 +467,22 @@ pub fn gen_c01(seed: u64, thorough: bool) -> Plan {
         let ending = *g.pick(&C01_ENDINGS);
         flows.push(gen_flow(&mut g, ix, hs, ending, max_bytes));
     }
+    if proto == Proto::Vmess && g.chance(6) {
+        // a flow of very many very small writes: more chunks in one direction than VMess's 16-bit chunk counter counts
+        // (the counter wraps by design; the flow goes on)
+        let n = 66_000 + g.range(0, 3000) as usize;
+        let f = &mut flows[0];
+        f.ending = Ending::None;
+        f.target_waits_for = 1;
+        if g.chance(50) {
+            f.up = (0..n).flat_map(|_| [Op::Write(1), Op::Pause(1)]).collect();
+            f.down = vec![Op::Write(64)];
+        } else {
+            f.up = vec![Op::Write(64)];
+            f.down = (0..n).flat_map(|_| [Op::Write(1), Op::Pause(1)]).collect();
+        }
+        flows.truncate(1);
+    }
     Plan { property: "C01".into(), scenario: "tcp-system".into(), seed, net_seed: g.next(), config, knobs, flows, extra: serde_json::Value::Null }
 }
 
